@@ -117,6 +117,13 @@ func (s *Solver) CheckSat() string {
 	t0 := time.Now()
 	s.Send("(check-sat)\n")
 	res := "unknown"
+	// watchdog: some solver builds ignore their own per-query limit
+	wd := time.AfterFunc(s.timeout+5*time.Second, func() {
+		if s.cmd != nil && s.cmd.Process != nil {
+			s.cmd.Process.Kill()
+		}
+	})
+	defer wd.Stop()
 	for {
 		line, err := s.readLine()
 		if err != nil {
